@@ -338,10 +338,6 @@ class SPICommandInterface(Elaboratable):
             # Once CS is low, we'll shift in our command.
             with m.State('RECEIVE_COMMAND'):
 
-                # If CS is de-asserted early; our transaction is being aborted.
-                with m.If(~spi.cs):
-                    m.next = 'IDLE'
-
                 # Continue shifting in data until we have a full command.
                 with m.If(bit_count < self.command_size):
                     with m.If(sample_edge):
@@ -359,16 +355,27 @@ class SPICommandInterface(Elaboratable):
                     ]
                     m.next = 'PROCESSING'
 
+                # If CS is de-asserted early; our transaction is being aborted.
+                # (Checked last, so it also wins in the cycle that completes the command.)
+                with m.If(~spi.cs):
+                    m.next = 'IDLE'
+
 
             # Give our controller a wait state to prepare any response they might want to...
             with m.State('PROCESSING'):
                 m.next = 'LATCH_OUTPUT'
+
+                with m.If(~spi.cs):
+                    m.next = 'IDLE'
 
 
             # ... and then latch in the response to transmit.
             with m.State('LATCH_OUTPUT'):
                 m.d.sync += current_word.eq(self.word_to_send)
                 m.next = 'SHIFT_DATA'
+
+                with m.If(~spi.cs):
+                    m.next = 'IDLE'
 
 
             # Finally, exchange data.
